@@ -2,7 +2,9 @@
 
 from __future__ import annotations
 
+import keyword
 import logging
+import re
 from dataclasses import dataclass, field
 from typing import TYPE_CHECKING, cast
 
@@ -171,18 +173,27 @@ def _register_fn(
 
     params: list[str] = []
     for arg in args:
-        param, n = arg, 0
-        while param in params or param in _RESERVED_NAMES:
+        # Component names are arbitrary strings, parameters have to be identifiers
+        base = arg if arg.isidentifier() else re.sub(r"\W", "_", f"_{arg}")
+        param, n = base, 0
+        while (
+            param in params or param in _RESERVED_NAMES or keyword.iskeyword(param)
+        ):
             n += 1
-            param = f"{arg}_{n}"
+            param = f"{base}_{n}"
         params.append(param)
+    # The expression names an argument once, also if it is passed several times:
+    # it refers to the first of its parameters
+    first_param: dict[str, str] = {}
+    for arg, param in zip(args, params, strict=True):
+        first_param.setdefault(arg, param)
     expr = cast(
         sympy.Expr,
         expr.xreplace(
             {
                 sympy.Symbol(arg): sympy.Symbol(param)
-                for arg, param in zip(args, params, strict=True)
-                if arg != param and args.count(arg) == 1
+                for arg, param in first_param.items()
+                if arg != param
             }
         ),
     )
